@@ -158,6 +158,7 @@ struct C07 : public Driver {
         res.count("strategy:" + strat); if (c.st.switches > (uint64_t)nt) res.count("fault:preempt", (int64_t)(c.st.switches - nt)); res.count("probe:blocked-by-xerces-lock", (int64_t)c.st.blockedByLock);
         res.count("probe:owner-manager-allocations-during-concurrent-phase", (int64_t)c.ownerAllocs);
         res.extra["schedule_hash"] = hex64(c.st.scheduleHash);
+        { Json dj = Json::object(); dj["interleavings(hash of the (step, task) hand-over sequence)"] = hex64(c.st.scheduleHash); res.extra["distinct"] = dj; }
         for (auto& f : plan.at("features").a) res.tag("facility:" + f.s);
         res.tag("tasks:" + std::to_string(nt) + "|" + strat);
         for (auto& r : c.races) res.violateSub("race", r.sig, r.detail + (c.ownerAllocs ? " (the owner's memory manager was entered " + std::to_string(c.ownerAllocs) + " times by reader threads)" : ""), sub);
